@@ -1,8 +1,9 @@
 #!/bin/bash
 # usage: tools/seedall.sh ID...   -- confirm and check every /tmp/seed/out/<ID>/patch*.diff against check <ID>
 cd /verif
+base="${SEEDBASE:-/tmp/seed}"
 for id in "$@"; do
-  for p in /tmp/seed/out/$id/patch.diff /tmp/seed/out/$id/patch2.diff; do
+  for p in $base/out/$id/patch.diff $base/out/$id/patch2.diff; do
     [ -f "$p" ] || continue
     d="${p/patch/demo}"; d="${d%.diff}.py"
     echo "=== $id $(basename $p)"
